@@ -309,6 +309,9 @@ def _send_shape(fn: ast.FunctionDef, who: str) -> List[str]:
         return ["stub"]
     if [_u(x) for x in b] == ["self._capture_nmne(frame, inbound=False)", "self._capture_traffic(frame, inbound=False)"]:
         return ["capture"]          # NetworkInterface.send_frame: bookkeeping only, reached through super()
+    if who == "NetworkInterface":
+        # the abstract base's bookkeeping has changed: named (what it does to the frame is in `frameCallsBetween…` / `frameWritesBetween…`)
+        return ["capture", "and-more"]
     return _send_order(fn, who)
 
 
